@@ -1,6 +1,7 @@
 #!/bin/bash
 # usage: soak.sh <tier> <seed>...   runs every check for every seed; prints only alarms and a summary
 tier=$1; shift
+[ -n "$VP_RUN_REPO" ] && export VERIF_REPO=$VP_RUN_REPO
 ./check --setup >/dev/null 2>&1 || { echo "setup failed"; exit 2; }
 bad=0
 for seed in "$@"; do
